@@ -66,6 +66,7 @@ func ruleC11_6(c *Ctx) {
 				accept = guardLits(ev.Guard)
 			}
 		}
+		accept = normaliseLits(accept)
 		underAccept := func(t *sym.Term) *sym.Term {
 			for _, l := range accept {
 				if l.Op == "not" {
@@ -74,7 +75,7 @@ func ruleC11_6(c *Ctx) {
 					t = sym.Assume(t, l, true)
 				}
 			}
-			return t
+			return simplifyUnder(t, accept)
 		}
 		printed := map[string]bool{}
 		nPrints := 0
